@@ -11,6 +11,7 @@ import RapidProofs.PruneCustomAssert
 import RapidProofs.TranslatedMinEq
 import RapidProofs.TranslatedPruneEq
 import RapidProofs.PruneLiteralRun
+import RapidProofs.TranslatedRecEq
 
 namespace Rapid.C05
 
@@ -189,6 +190,21 @@ theorem source_prune_of_run (p : Prog) (src : Src) (ts : TS) (fuel : Nat)
       r'.finished = (prunedOfToks (p.run src ts).toks).finished := by
   obtain ⟨r', h1, h2⟩ := Rapid.literal_prune_of_run p src ts hne
   exact ⟨r', tr_prune _ r' hs fuel hf h1, h2⟩
+
+/-- **from the calls to the pruned recording, all in the source's functions**: replaying the recording calls of any run
+    through the translated `record`/`beginGroup`/`endGroup` gives a recording (no assertion of `endGroup` fires) which
+    the translated `prune()` turns into one with the data and the finished groups of `prunedOfToks`; the only
+    premises are the two lengths (below 2^62 words, 2^61 groups) and the closing assertion of `prune()` -/
+theorem source_record_and_prune_of_run (p : Prog) (src : Src) (ts : TS) (fuel : Nat)
+    (hd : (recOfToks (p.run src ts).toks).data.length < 2 ^ 62) (hg : (recOfToks (p.run src ts).toks).groups.length < 2 ^ 61)
+    (hf : 2 * (recOfToks (p.run src ts).toks).groups.length + 4 ≤ fuel)
+    (hne : (prunedOfToks (p.run src ts).toks).noEmptyGroup = true) :
+    ∃ (d : List UInt64) (g : List Translated.groupInfo) (r' : Rec),
+      srcRecGo (p.run src ts).toks [] [] [] = some (d, g) ∧
+      Translated.recordedBits_prune d g true fuel = .ok (r'.data, r'.groups.map goOf, true) ∧
+      r'.finished = (prunedOfToks (p.run src ts).toks).finished := by
+  obtain ⟨r', h1, h2⟩ := source_prune_of_run p src ts fuel (small_of_run p src ts hd hg) hf hne
+  exact ⟨_, _, r', srcRecGo_of_run p src ts hd hg, h1, h2⟩
 
 /-- for properties built from the generators and the `*T` API the assertion premise holds by itself -/
 theorem source_prune_of_generator_property (e : Env) (hrt : RTPos e) (p : Prog) (hp : PropProg e p) (src : Src) (ts : TS) (fuel : Nat)
